@@ -43,7 +43,10 @@ TABLE = {
              "lock-based components: the lock-grain threaded replays of queue, thread pool and scheduler (thread mode) run inside this check "
              "(a moved/removed/added lock operation or a guarded state change after the unlock diverges), and so does the lock-grain replay of "
              "PublisherConc.tla (one publishing/closing/kicking thread against subscriber threads using blocking, polled and coroutine next()) and of "
-             "AggregatorConc.tla (generator_aggregator's internal queue: sources pushing from their own threads against the aggregate's pop)",
+             "AggregatorConc.tla (generator_aggregator's internal queue: sources pushing from their own threads against the aggregate's pop); "
+             "the two-mutex combination scheduler + thread_pool (SchedulerPool.tla) is bound the same way, every pending lock/unlock/wait "
+             "classified by mutex and by what the thread already holds; publisher: also a guarded READ after the unlock and an unguarded walk "
+             "over the shared wake-up buffer while a second publisher refills it diverge",
         design_ref="6/C03, 3.2, 4.5, 9.1, 9.8",
         technique="explicit TLA+ weak-memory model checked by TLC, memory orders extracted from the executing code (conformance binding by schedule replay)"),
     "C04": dict(
@@ -215,7 +218,14 @@ TABLE = {
              "millisecond/second/minute durations, interval(d) - is rotated per call onto the single specification action Schedule(tp) with "
              "tp = now-at-the-call + d exactly: model time is embedded order-preservingly into the virtual clock's nanosecond resolution with "
              "sub-millisecond offsets, heap time points and wake times are compared without rounding, and get_expired probes at each time "
-             "point and 1 ns before it, so a sleep scheduled or handed out even one clock unit early diverges.",
+             "point and 1 ns before it, so a sleep scheduled or handed out even one clock unit early diverges. Thread-pool mode "
+             "(scheduler(thread_pool&)/start(pool), worker_coro<true> travelling through the pool) is a separate model SchedulerPool.tla at lock "
+             "grain over the scheduler and the pool mutex incl. the nested acquisitions (any_enqueued, pool->resume under _mx) and the worker's "
+             "clock read, replayed edge by edge on the real scheduler + thread_pool with adopted pool threads and virtual time: never early, "
+             "deadline order, exactly once, exact cancel, no missed wake-up or stop, pending sleeps (polled and awaited) cancelled at "
+             "destruction, pool.stop() before or after the destruction (finite deadline), ordinary jobs next to the worker. The pre-d43aae7 "
+             "destructor (std::terminate after pool.stop()) and the excluded histories (pool stopped while the worker idles; bare-handle "
+             "closures dropped = known finding of C11) are kept as variants the specification must reject.",
         note="bounds: <=3 time points, <=3 identifiers, <=3-5 concurrently pending sleeps, array <=3-6 (histories unbounded); start mode 2-3 coroutines x "
              "<=4-6 commands; thread mode (start_thread) covered by SchedulerThread.tla: worker thread vs one client, <=3 sleeps, scripts of <=6 steps, lock grain + the worker's clock read, virtual time; thread-POOL mode (worker_coro<true>) not covered; TCB: TLC, tools/fastcover.py path cover, the replayer's "
              "projection/audit and its clock/pthread interposition, libstdc++-12 heap algorithms as modelled (a mismatch would diverge)",
@@ -289,7 +299,11 @@ TABLE = {
              "thread), model-checked against all C16 invariants, and replayed on real threads under the controlled scheduler at lock grain "
              "(virtual std::mutex, sync_awaiter wait controlled). After every critical section the internal registration state, every "
              "thread's pending operation and every subscriber's received values are compared, and every step outside a critical section "
-             "must leave the mutex-guarded state unchanged.",
+             "must leave the mutex-guarded state unchanged; the wake-up loop is one step per resumed waiter, what follows the unlock of get_value "
+             "up to the return of next() is separately scheduled (the published items poison themselves when destroyed, so a value copied after "
+             "the unlock is observed), a second publishing thread (publish/close) runs its critical sections inside the first one's wake-up "
+             "loop, and a subscriber copied after its awaiter was collected for a wake-up and before it fetched (fixed c8b8cb3) is modelled and "
+             "replayed sequentially and threaded.",
         note="threaded replay: 1 publisher + <=3 subscriber threads, <=2 values (<=4 with one subscriber), replay path sets capped (quick 2x1200, "
              "thorough 5x9000 paths), lock grain (atomics not scheduling points); bounds: <=3 subscribers, <=4 subscribe events, <=6 values, batches <=3; thread interleavings at critical-section grain on the spec "
              "(std::mutex trusted), the blocking form replayed as a whole call in a real thread; publish after close, use after the first EOS, "
@@ -309,7 +323,11 @@ TABLE = {
              "nothing is left at the end. Every dumped state graph is replayed on the real shared_future<Counted> under the controlled "
              "scheduler, comparing after each step the use count, freed/alive status, instance and destruction counters, allocation balance, "
              "chain, stored result, per-awaiter observations and each thread's pending operation; thorough and part of quick run under ASan "
-             "without any probe that keeps the block alive.",
+             "without any probe that keeps the block alive. A resolved shared state is re-armed for a second and third round in every way legal at "
+             "HEAD - operator<< with a pending or a ready future through any handle, and assignment of a newly constructed shared_future by the "
+             "sole holder (get_promise() on a resolved state is illegal and excluded) - with copies, awaiters and handle drops in every round; "
+             "per round the state is alive exactly while referenced and while pending, the tracer is charged again, every awaiter of round k is "
+             "released exactly once with round k's result, every stored value is destroyed exactly once (re-arming under exclusive access; <=3 rounds).",
         note="bounds: <=3 handle threads, <=2 copies, <=2 handles/thread, each call kind once per thread, one resolver; SC interleavings only; TCB: vsched "
              "token passing, libstdc++ shared_ptr atomicity and layout (control-block pointer read raw in ASan builds), strong-for-weak CAS, "
              "capped edge cover on the largest graphs",
